@@ -31,15 +31,33 @@ Definition spec_ok (s : aspec) : Prop :=
 Definition cfg_ok (c : cfg) : Prop := Forall (fun e : aentry => spec_ok (snd e)) (g_atab c).
 
 (* ---------- the cells of a canvas row ---------- *)
+(* a zero-width (combining) character joins the last character painted before it *)
+Definition combine_last (P : list cell) (cp : Z) : list cell :=
+  match rev P with
+  | [] => []
+  | c :: r =>
+      if c_w c =? 0 then match r with c2 :: r2 => rev r2 ++ [add_comb c2 cp; c] | [] => P end
+      else rev r ++ [add_comb c cp]
+  end.
+Definition paint_chr (cs : Z) (v : vattr) (P : list cell) (ch : chr) : list cell :=
+  if snd ch =? 0 then combine_last P (fst ch) else P ++ char_cells (fst ch) (snd ch) cs v.
+Definition paint_text (P : list cell) (cs : Z) (v : vattr) (text : list chr) : list cell :=
+  fold_left (paint_chr cs v) text P.
 Definition run_cells (c : cfg) (r : crun) : list cell :=
-  let '(a, cs, text) := r in
-  flat_map (fun ch : chr => char_cells (fst ch) (snd ch) cs (attr_vis c a)) text.
+  let '(a, cs, text) := r in paint_text [] cs (attr_vis c a) text.
+(* every run of the canvases considered starts with a character that takes a column (run_ok below), so
+   no combining character reaches into the run before: the row is the concatenation of its runs *)
 Definition row_cells (c : cfg) (row : crow) : list cell := flat_map (run_cells c) row.
+(* the cells of ANY row of runs: combining characters join the last character painted, also across runs;
+   C0 control characters are painted as '?' (equal to row_cells on the rows the theorems speak about) *)
+Definition row_cells_threaded (c : cfg) (row : crow) : list cell :=
+  fold_left (fun P (r : crun) => let '(a, cs, text) := r in
+               paint_text P cs (attr_vis c a) (if cs =? 2 then text else map trans_chr text)) row [].
 
 (* ---------- visual equality of an expected cell e and a terminal cell g ---------- *)
 Definition vis_eq (e g : cell) : Prop :=
-  c_cp g = c_cp e /\ c_w g = c_w e /\
-  (if c_cp e =? 32 then
+  c_cp g = c_cp e /\ c_w g = c_w e /\ c_comb g = c_comb e /\
+  (if (c_cp e =? 32) && (match c_comb e with [] => true | _ => false end) then
      a_bg (c_at g) = a_bg (c_at e) /\ a_under (c_at g) = a_under (c_at e) /\
      a_stand (c_at g) = a_stand (c_at e) /\ a_strike (c_at g) = a_strike (c_at e) /\
      (a_stand (c_at e) = true -> a_fg (c_at g) = a_fg (c_at e))
@@ -64,14 +82,18 @@ Definition Paints (c : cfg) (t : term) (content : list crow) (cursor : option (Z
   grid_shows c content (t_grid t) /\ cursor_shown t cursor /\ t_scrolled t = false.
 
 (* ---------- the canvases the theorems speak about ---------- *)
-(* printable characters of width 1 (or 2 under UTF-8); no C0 control characters, no zero-width characters;
+(* printable characters of width 1 (or 0 - combining - or 2 under UTF-8); no C0 control characters;
    the space is one column wide *)
 Definition chr_ok (utf8 : bool) (ch : chr) : Prop :=
-  32 <= fst ch /\ (snd ch = 1 \/ (utf8 = true /\ snd ch = 2)) /\ (fst ch = 32 -> snd ch = 1).
-(* non-empty runs; no charset flags under UTF-8; None, "0" (DEC special graphics) or "U" (IBMPC) otherwise *)
+  32 <= fst ch /\ (snd ch = 1 \/ (utf8 = true /\ (snd ch = 0 \/ snd ch = 2))) /\ (fst ch = 32 -> snd ch = 1).
+(* a run is non-empty and starts with a character that takes a column; no charset flags under UTF-8;
+   None, "0" (DEC special graphics) or "U" (IBMPC) otherwise *)
+Definition starts_with_base (text : list chr) : Prop :=
+  match text with ch :: _ => snd ch <> 0 | [] => True end.
 Definition run_ok (c : cfg) (r : crun) : Prop :=
   let '(a, cs, text) := r in
-  text <> [] /\ Forall (chr_ok (g_utf8 c)) text /\ (if g_utf8 c then cs = 0 else cs = 0 \/ cs = 1 \/ cs = 2).
+  text <> [] /\ starts_with_base text /\ Forall (chr_ok (g_utf8 c)) text /\
+  (if g_utf8 c then cs = 0 else cs = 0 \/ cs = 1 \/ cs = 2).
 Definition row_width (row : crow) : Z := fold_right (fun r acc => calc_width (snd r) + acc) 0 row.
 Definition row_ok (c : cfg) (cols : Z) (row : crow) : Prop :=
   Forall (run_ok c) row /\ row_width row = cols.
@@ -161,7 +183,7 @@ Definition draws_paint_statement (partial : bool) (paints : cfg -> scr -> term -
 
 (* ---------- partial display (started without the alternate buffer; display origin = terminal row 0,
    the lines below it blank, as many terminal rows as canvas rows) ---------- *)
-Definition blank_row_text (r : list cell) : Prop := Forall (fun x => c_cp x = 32 /\ c_w x = 1) r.
+Definition blank_row_text (r : list cell) : Prop := Forall (fun x => c_cp x = 32 /\ c_w x = 1 /\ c_comb x = []) r.
 Definition is_blank (row : crow) : bool := match is_blank_row row with Ok b => b | Err _ => false end.
 (* a canvas row that is blank may never have been painted (urwid leaves blank lines off the display):
    then only its text is demanded; any other row is demanded in full *)
@@ -202,3 +224,25 @@ Inductive ReachP (c : cfg) : scr -> term -> option canvas -> Prop :=
       canvas_ok c (t_cols t) (t_rows t) content -> cursor_ok (t_cols t) (t_rows t) cursor ->
       draw_screen c s (t_cols t) (t_rows t) content cursor false true = Ok (toks, s') ->
       ReachP c (ack s') (run t toks) None.
+
+(* ---------- any decodable text (statement kept in full; refuted, see Properties/C04.v) ---------- *)
+Definition chr_any (utf8 : bool) (ch : chr) : Prop :=
+  0 <= fst ch /\ (snd ch = 1 \/ (utf8 = true /\ (snd ch = 0 \/ snd ch = 2))) /\ (fst ch = 32 -> snd ch = 1).
+Definition canvas_any (c : cfg) (cols rows : Z) (content : list crow) : Prop :=
+  zlen content = rows /\
+  Forall (fun row : crow =>
+            Forall (fun r : crun => let '(a, cs, text) := r in
+                      text <> [] /\ Forall (chr_any (g_utf8 c)) text /\
+                      (if g_utf8 c then cs = 0 else cs = 0 \/ cs = 1 \/ cs = 2)) row
+            /\ row_width row = cols) content.
+Definition paints_any (c : cfg) (t : term) (content : list crow) (cursor : option (Z * Z)) : Prop :=
+  (zlen (t_grid t) = zlen content /\
+   forall y row, nthz content y = Some row -> Forall2 vis_eq (row_cells_threaded c row) (get_row (t_grid t) y)) /\
+  cursor_shown t cursor /\ t_scrolled t = false.
+(* draw_paints for canvases whose runs may start with a combining character and may contain C0 control characters *)
+Definition draw_paints_any_text_full : Prop :=
+  forall c s t cols rows content cursor,
+    cfg_ok c -> Sync c s t -> t_cols t = cols -> t_rows t = rows ->
+    canvas_any c cols rows content -> cursor_ok cols rows cursor ->
+    exists toks s', draw_screen c s cols rows content cursor false false = Ok (toks, s') /\
+                    paints_any c (run t toks) content cursor.
